@@ -87,7 +87,13 @@ def gen(rng, tier):
                     if order != "server" and reason:
                         continue
                     cases.append(("close", hv, order, code, reason))
-    closing = [c for c in cases if c[0] == "close"]
+    # ---- requests that carry handshake fields but are not openings: no upgrade may be attempted ------------
+    for method in (b"POST", b"OPTIONS", b"HEAD", b"PUT", b"DELETE"):
+        for dec in (("accept", None, None), ("close",)):
+            cases.append(("nonws", method, b"websocket", b"Upgrade", dec))
+    for upg, conn in ((None, b"Upgrade"), (b"websocket", None), (b"websocket", b"keep-alive"), (b"h2c-not", b"Upgrade"), (b"websocket2", b"Upgrade")):
+        cases.append(("nonws", b"GET", upg, conn, ("accept", None, None)))
+    closing = [c for c in cases if c[0] in ("close", "nonws")]
     hs = [c for c in cases if c[0] != "close"]
     rng.shuffle(hs)
     if tier == "quick":
@@ -98,6 +104,16 @@ def gen(rng, tier):
         n += 1
         if c[0] == "hs":
             yield _hs_case(rng, n, *c[1:])
+        elif c[0] == "nonws":
+            _, method, upg, conn, dec = c
+            data = ws.handshake(path=b"/t%d" % n, method=method, upgrade=upg, connection=conn)
+            if method in (b"POST", b"PUT"):
+                data = data[:-2] + b"Content-Length: 0\r\n\r\n"
+            yield {"family": "nonws.h1", "backends": ["asyncio", "trio"], "config": {"keep_alive_timeout": 5000}, "conn": {},
+                   "apps": {"default": [["recv_until_end"], ["respond", 200, [], b"plain-http"]], "websocket": _decision_script(dec)},
+                   "client": [["feed", data], ["settle"]], "reactor": {"kind": "ws", "echo_close": True},
+                   "truth": {"kind": "nonws", "method": method, "upgrade": upg, "connection": conn, "hv": "1.1"},
+                   "sched": {"seed": rng.randrange(1 << 30)}, "horizon": 50.0}
         else:
             yield _close_case(rng, n, *c[1:])
 
@@ -217,6 +233,15 @@ def check(case, obs, tally):
     ws_starts = [e for e in obs.app_events(kind="start") if e[4]["scope"].get("type") == "websocket"]
     http_starts = [e for e in obs.app_events(kind="start") if e[4]["scope"].get("type") == "http"]
     resp = _response(case, obs)
+    if t["kind"] == "nonws":
+        tally.clause("validity")
+        status = resp[0] if resp else None
+        if ws_starts or status == 101:
+            out.append({"clause": "validity", "sig": "C11.upgrade-attempted-for-non-opening/%s" % (
+                            "method" if t["method"] != b"GET" else "upgrade-fields"),
+                        "detail": "%r request with Upgrade %r / Connection %r is not a WebSocket opening, yet %d websocket applications were "
+                                  "started and the response status was %r" % (t["method"], t["upgrade"], t["connection"], len(ws_starts), status)})
+        return out
     if t["kind"] == "hs":
         hv = t["hv"]
         valid = t["ver"] == b"13" and (hv == "2" or (hv == "1.1" and t["key"] in ("valid", "dup")))
